@@ -8,6 +8,13 @@ for tier in ("quick", "thorough"):
     for p in sorted(glob.glob(os.path.join(V, "work", "mutants-%s*.json" % tier)), key=os.path.getmtime):
         for n, r in json.load(open(p)).items():
             res.setdefault(n, {}).update({(tier, k): v for k, v in r.items()})
+# logs of runs that were cut short (run_mutants.py writes its JSON at the end): "NAME PROP STATUS 12.3s first failure"
+import re
+for lp in sorted(glob.glob(os.path.join(V, "work", "mutants-all-*.log")), key=os.path.getmtime):
+    for line in open(lp, errors="replace"):
+        m = re.match(r"^(C\d+[A-Z])\s+(C\d+)\s+(CAUGHT|MISSED|INCONCLUSIVE)\s+[\d.]+s ?(.*)$", line.rstrip("\n"))
+        if m and not (res.get(m.group(1), {}).get(("quick", m.group(2)), {}).get("status") == "CAUGHT" and m.group(3) != "CAUGHT"):
+            res.setdefault(m.group(1), {})[("quick", m.group(2))] = {"status": m.group(3), "tier": "quick", "first": m.group(4)[:160]}
 out = ["# Seeded changes (sub-agent mutants) and the checks that catch them", "",
        "Each directory holds `patch.diff` (applies to /repo HEAD), the sub-agent's demonstration test and `meta.json`",
        "(what it breaks, what it needs to manifest, how it was confirmed in a scratch worktree: suite passes with the",
